@@ -227,6 +227,8 @@ def readonly_state(task):
                 try:
                     events.with_watchdog(thunk, 60)
                 except events.Hang:  # believed only when it happens twice (read-only: safe to repeat)
+                    shutil.rmtree(d, ignore_errors=True)
+                    d.mkdir(parents=True, exist_ok=True)  # same paths, empty again
                     events.with_watchdog(thunk, 300)
             except events.Hang:
                 out.append(vio("C16", "hang", f"{name} did not terminate", dict(case, op=name), "readonly", name))
